@@ -386,11 +386,12 @@ theorem from_trusted_example :
 /-! ## 3. fast serialization -/
 
 /-- the statement at full strength: every class tree (all classes FastSerializable, no mapper) for
-    which `create_serializer` succeeds, every well-formed instance, both flags -/
+    which `create_serializer` succeeds, every well-formed instance, both flags (`JK`: the enum classes
+    whose members are int / float / str instances) -/
 def fast_statement : Prop :=
-  ∀ (O : Oracles) (cls : FieldDecl) (x : PyVal) (compact : Bool),
+  ∀ (O : Oracles) (JK : List String) (cls : FieldDecl) (x : PyVal) (compact : Bool),
     wfDecl cls = true → createOk noMappers [] cls = true → wellFormed O cls x = true →
-    fastSerialize noMappers [] false compact cls x = serializeCompact O compact cls x
+    fastSerialize noMappers [] JK false compact cls x = serializeCompact O compact cls x
 
 /-- **C10 (fast serialization), proved part**: for every class in the region `fsafeCls` (scalars,
     Enum, Array / Deque / Set / Map / fixed-length Tuple over such fields at any depth, nested
@@ -398,33 +399,33 @@ def fast_statement : Prop :=
     installed `serialize()` returns the document the regular serialization of the identically
     declared class returns (for the instance with its attributes listed in field order: the
     order of `__dict__` / of the document's keys is not part of the claim). -/
-theorem fast_equiv_partial (O : Oracles) (cls : FieldDecl) (x : PyVal)
+theorem fast_equiv_partial (O : Oracles) (JK : List String) (cls : FieldDecl) (x : PyVal)
     (hs : fsafeCls [] cls = true) (hw : fwf O cls x = true) :
-    fastSerialize noMappers [] false false cls x = serialize O cls (canonV cls x) :=
-  fast_equiv_core O cls x hs hw
+    fastSerialize noMappers [] JK false false cls x = serialize O cls (canonV cls x) :=
+  fast_equiv_core O JK cls x hs hw
 
 /-- `compact=True` on both sides, for the classes the regular path compacts (one field, required,
     no additional properties) holding a value -/
-theorem fast_equiv_compact_partial (O : Oracles) (c : ClassOpts) (n : String) (f : FieldDecl)
+theorem fast_equiv_compact_partial (O : Oracles) (JK : List String) (c : ClassOpts) (n : String) (f : FieldDecl)
     (defaults : List (String × PyVal)) (cn : String) (attrs : List (String × PyVal)) (v : PyVal)
     (hs : fsafeCls [] (.struct c [(n, f)] defaults) = true)
     (hw : fwf O (.struct c [(n, f)] defaults) (.inst cn attrs) = true)
     (hreq : c.required = [n]) (haddl : c.addl = false)
     (hv : lookup n attrs = some v) (hvn : v.isNone = false) :
-    fastSerialize noMappers [] false true (.struct c [(n, f)] defaults) (.inst cn attrs)
+    fastSerialize noMappers [] JK false true (.struct c [(n, f)] defaults) (.inst cn attrs)
       = serializeCompact O true (.struct c [(n, f)] defaults)
           (canonV (.struct c [(n, f)] defaults) (.inst cn attrs)) :=
-  fast_compact_core O c n f defaults cn attrs v hs hw hreq haddl hv hvn
+  fast_compact_core O JK c n f defaults cn attrs v hs hw hreq haddl hv hvn
 
 /-- `serialize_none=True` only adds explicit nulls: removing them gives the `serialize_none=False`
     document (for every class, instance and set of non-fast classes; no region needed) -/
-theorem fast_serialize_none (NF : List String) (cls : FieldDecl) (x : PyVal) :
-    fastSerialize noMappers NF false false cls x
-      = bindE (fastSerialize noMappers NF true false cls x) fun d =>
+theorem fast_serialize_none (NF JK : List String) (cls : FieldDecl) (x : PyVal) :
+    fastSerialize noMappers NF JK false false cls x
+      = bindE (fastSerialize noMappers NF JK true false cls x) fun d =>
           match d with
           | .dict r => .ok (.dict (r.filter fun kv => !kv.2.isNone))
           | w => .ok w :=
-  fast_serialize_none_core NF cls x
+  fast_serialize_none_core NF JK cls x
 
 /-! ### counterexamples: the known findings of fast serialization -/
 
@@ -435,7 +436,7 @@ theorem fixed_fast_tuple_index :
     createOk noMappers [] cxTuple = true ∧ fsafeCls [] cxTuple = true
     ∧ fwf exO cxTuple (.inst "A" [("t", .tuple [.int 1, .int 2])]) = true
     ∧ (match serialize exO cxTuple (.inst "A" [("t", .tuple [.int 1, .int 2])]),
-             fastSerialize noMappers [] false false cxTuple (.inst "A" [("t", .tuple [.int 1, .int 2])]) with
+             fastSerialize noMappers [] [] false false cxTuple (.inst "A" [("t", .tuple [.int 1, .int 2])]) with
         | .ok (.dict [(_, .list [.int 1, .int 2])]), .ok (.dict [(_, .list [.int 1, .int 2])]) => true
         | _, _ => false) = true := by
   decide
@@ -445,7 +446,7 @@ def cxPos : FieldDecl := mkCls "A" ["t"] [("t", .seqPos .list [.integer {}] true
 theorem fixed_fast_positional_index :
     createOk noMappers [] cxPos = true
     ∧ (match serialize exO cxPos (.inst "A" [("t", .list [.int 1, .str "x"])]),
-             fastSerialize noMappers [] false false cxPos (.inst "A" [("t", .list [.int 1, .str "x"])]) with
+             fastSerialize noMappers [] [] false false cxPos (.inst "A" [("t", .list [.int 1, .str "x"])]) with
         | .ok (.dict [(_, .list [.int 1, .str "x"])]), .ok (.dict [(_, .list [.int 1, .str "x"])]) => true
         | _, _ => false) = true := by
   decide
@@ -457,7 +458,7 @@ theorem counterexample_fast_positional_index_deque :
     createOk noMappers [] cxPosDeque = true
     ∧ wellFormed exO cxPosDeque (.inst "A" [("t", .deque [.int 1, .str "x"])]) = true
     ∧ isOk (serialize exO cxPosDeque (.inst "A" [("t", .deque [.int 1, .str "x"])])) = true
-    ∧ isErr (fastSerialize noMappers [] false false cxPosDeque (.inst "A" [("t", .deque [.int 1, .str "x"])])) = true := by
+    ∧ isErr (fastSerialize noMappers [] [] false false cxPosDeque (.inst "A" [("t", .deque [.int 1, .str "x"])])) = true := by
   decide
 
 /-- finding `fast:compact-conditions`: `set_compact_wrapper` compacts every one-field class; the
@@ -467,7 +468,7 @@ def isDictDoc : R PyVal → Bool | .ok (.dict _) => true | _ => false
 theorem counterexample_fast_compact_conditions :
     createOk noMappers [] cxCompact = true
     ∧ isDictDoc (serializeCompact exO true cxCompact (.inst "A" [("a", .int 1)])) = true
-    ∧ isDictDoc (fastSerialize noMappers [] false true cxCompact (.inst "A" [("a", .int 1)])) = false := by
+    ∧ isDictDoc (fastSerialize noMappers [] [] false true cxCompact (.inst "A" [("a", .int 1)])) = false := by
   decide
 
 /-- finding `fast:inline-none-keys`: `StructureReference.serialize` emits every field, unset ones
@@ -485,7 +486,7 @@ def sizeAt (k : String) (r : R PyVal) : Nat :=
 theorem counterexample_fast_inline_none_keys :
     createOk noMappers [] cxInline = true
     ∧ sizeAt "s" (serialize exO cxInline cxInlineX) = 1
-    ∧ sizeAt "s" (fastSerialize noMappers [] false false cxInline cxInlineX) = 2 := by
+    ∧ sizeAt "s" (fastSerialize noMappers [] [] false false cxInline cxInlineX) = 2 := by
   decide
 
 /-- finding `fast:untyped-raw`: the elements of an untyped Array / Deque / Map are copied, not
@@ -498,7 +499,7 @@ def fieldHoldsTuple (r : R PyVal) : Bool :=
 theorem counterexample_fast_untyped_raw :
     createOk noMappers [] cxUntyped = true
     ∧ fieldHoldsTuple (serialize exO cxUntyped (.inst "A" [("q", .list [.tuple [.int 2, .int 3]])])) = false
-    ∧ fieldHoldsTuple (fastSerialize noMappers [] false false cxUntyped
+    ∧ fieldHoldsTuple (fastSerialize noMappers [] [] false false cxUntyped
         (.inst "A" [("q", .list [.tuple [.int 2, .int 3]])])) = true := by
   decide
 
@@ -509,13 +510,13 @@ theorem counterexample_fast_extras :
     ∧ wellFormed exO cxCompact (.inst "A" [("a", .int 1), ("zz", .int 2)]) = true
     ∧ docHas "zz" (fun _ => true) (serialize exO cxCompact (.inst "A" [("a", .int 1), ("zz", .int 2)])) = true
     ∧ docHas "zz" (fun _ => true)
-        (fastSerialize noMappers [] false false cxCompact (.inst "A" [("a", .int 1), ("zz", .int 2)])) = false := by
+        (fastSerialize noMappers [] [] false false cxCompact (.inst "A" [("a", .int 1), ("zz", .int 2)])) = false := by
   decide
 
 theorem fast_statement_false : ¬ fast_statement := by
   intro h
   rcases counterexample_fast_positional_index_deque with ⟨h1, h2, h3, h4⟩
-  have := h exO cxPosDeque (.inst "A" [("t", .deque [.int 1, .str "x"])]) false (by decide) h1 h2
+  have := h exO [] cxPosDeque (.inst "A" [("t", .deque [.int 1, .str "x"])]) false (by decide) h1 h2
   simp only [serializeCompact, cxPosDeque, mkCls, Bool.false_and, Bool.false_eq_true, if_false] at this
   simp only [cxPosDeque, mkCls] at h3 h4
   rw [this] at h4
@@ -548,7 +549,7 @@ def exFastX : PyVal :=
 theorem fast_equiv_example :
     fsafeCls [] exFastOuter = true ∧ fwf exO exFastOuter exFastX = true
     ∧ createOk noMappers [] exFastOuter = true ∧ wellFormed exO exFastOuter exFastX = true
-    ∧ (match fastSerialize noMappers [] false false exFastOuter exFastX with
+    ∧ (match fastSerialize noMappers [] [] false false exFastOuter exFastX with
         | .ok (.dict r) => r.length == 6 && isJson (.dict r)
         | _ => false) = true := by
   decide
